@@ -223,3 +223,46 @@ def big_real(p, inputs):
 CHECKS.append(Check("scale_1e6", lambda tier: [] if tier == "quick" else [dict()], big_sym, big_real, labels=(),
                     doc="thorough only: one real-stack creation with 1.2e6 pixels across the indexer's real block boundary, validated with the schema predicate",
                     bounds=dict(thorough="one concrete input"), timeout=1800))
+
+
+# ---------------------------------------------------------------------------
+# integer value columns over the full range of the type they are handed over in: stored exactly, or refused - never clipped
+# ---------------------------------------------------------------------------
+def intrange_body(env, p):
+    env.reset()
+    co = env.cooler
+    bins = concrete_bins([2], "fixed")
+    src, dst = p["src"], p.get("dst")
+    sinfo, dinfo = np.iinfo(src), np.iinfo(dst or "int32")
+    v = [env.int(f"v{q}", int(sinfo.min), int(sinfo.max)) for q in range(2)]
+    env.assume(and_(v[0] != 0, v[1] != 0))
+    fits = and_(*[and_(x >= int(dinfo.min), x <= int(dinfo.max)) for x in v])
+    env.cover("does_not_fit", not_(fits))
+    env.cover("fits_at_limit", or_(*[x == int(dinfo.max) for x in v]))
+    path = scratch_file("c02r.cool")
+    chunk = {"bin1_id": env.array([0, 0], "int64"), "bin2_id": env.array([0, 1], "int64"), "count": env.array(v, src)}
+    try:
+        co.create_cooler(path, bins, iter([chunk]), ordered=True, **({"dtypes": {"count": np.dtype(dst)}} if dst else {}))
+    except ValueError:
+        env.check(not_(fits), "creation refused although every value fits the stored type")
+        return ["raises", "ValueError"]
+    if env.symbolic:
+        prove_valid(path)
+    else:
+        validity_real(path)
+    f = env.h5.File(path, "r")
+    got = list(f["pixels/count"][:])
+    tot = f.attrs["sum"]
+    f.close()
+    env.check(and_(len(got) == 2, got[0] == v[0], got[1] == v[1]) if len(got) == 2 else False,
+              "a value that does not fit the stored integer type was stored as a different number instead of being refused")
+    return [got, tot]
+
+
+intrange_sym, intrange_real = both(intrange_body)
+
+CHECKS.append(Check("int_range", lambda tier: [dict(src="int64"), dict(src="uint32"), dict(src="uint16", dst="int16"), dict(src="int32", dst="uint16"), dict(src="uint8")],
+                    intrange_sym, intrange_real, labels=("does_not_fit", "fits_at_limit"),
+                    doc="create with the value column handed over in a (wider / differently signed / narrower) integer type, values symbolic over the whole "
+                        "range of that type: the stored column equals the given one and sum agrees, or creation is refused",
+                    bounds=dict(values="full range of int64/uint32/uint16/int32/uint8 sources against int32 (default), int16, uint16 storage; 2 pixels")))
